@@ -250,7 +250,7 @@ TCancel ==
 
 (* environment and scheduler steps are imposed by the driver: no observation *)
 TEnv ==
-  /\ Ev.act \in {"EditSource", "DeleteOutput", "EditSpec", "SetUseHash"}
+  /\ Ev.act \in {"EditSource", "DeleteOutput", "EditSpec", "SetUseHash", "Rename"}
   /\ IF \/ Ev.act = "EditSource" /\ ~(Ev.f \in Unresolved(W3) /\ fs[Ev.f] # Missing)
         \/ Ev.act = "DeleteOutput" /\ ~(Ev.f \in AllOut(W3) /\ fs[Ev.f] # Missing)
         \/ Ev.act = "SetUseHash" /\ Ev.v = useHash
@@ -259,6 +259,7 @@ TEnv ==
           /\ \/ Ev.act = "EditSource" /\ EditSource(Ev.f)
              \/ Ev.act = "DeleteOutput" /\ DeleteOutput(Ev.f)
              \/ Ev.act = "EditSpec" /\ EditSpec(Ev.t)
+             \/ Ev.act = "Rename" /\ Rename(Ev.t)
              \/ Ev.act = "SetUseHash" /\ SetUseHash(Ev.v)
           /\ Judge({})
 
